@@ -439,6 +439,53 @@ package badger
 //@   assert[candidate-returned] before return#4 : result0 == maxVs && result1 == nil
 //@   assert[error-stops] before return#2 : result1 != nil && ret1(get#1) != nil
 
+// ---- write batches (C27): every operation lands in some internal transaction ----
+
+// handleEntry: the entry goes into the current transaction; only when that transaction is full
+// is it committed and the same entry retried in the fresh one; any other error is returned, and
+// a second failure is remembered as the batch's error.
+//@ func (*WriteBatch).handleEntry
+//@   props C27
+//@   light
+//@   assert[entry-into-current-txn] before call SetEntry#1 : arg0 == wb.txn && arg1 == e
+//@   assert[commit-only-when-full] before call commit : ret(SetEntry#1) == ErrTxnTooBig
+//@   assert[same-entry-retried] before call SetEntry#2 : arg0 == wb.txn && arg1 == e && ret(commit#1) == nil
+//@   assert[other-errors-returned] before return#1 : result == ret(SetEntry#1)
+//@   assert[second-failure-remembered] before call Store : arg1 == ret(SetEntry#2) && ret(SetEntry#2) != nil
+//@   assert[success-means-recorded] before return : result == nil ==> (called(SetEntry#2) ? ret(SetEntry#2) == nil : ret(SetEntry#1) == nil)
+
+//@ func (*WriteBatch).Delete
+//@   props C27
+//@   light
+//@   assert[delete-into-current-txn] before call Delete#1 : arg0 == wb.txn && arg1 == k && held(wb.Mutex)
+//@   assert[commit-only-when-full] before call commit : ret(Delete#1) == ErrTxnTooBig
+//@   assert[same-key-retried] before call Delete#2 : arg0 == wb.txn && arg1 == k && ret(commit#1) == nil
+
+// commit: the full transaction is committed with the batch's callback, and the next internal
+// transaction is a fresh update transaction with the batch's mode and commit timestamp; nothing
+// is committed after an error or after Flush.
+//@ func (*WriteBatch).commit
+//@   props C27 C36
+//@   light
+//@   assert[no-commit-after-error] before call Do : called(Error#1) && ret(Error#1) == nil && !wb.finished
+//@   assert[commit-current-txn] before call CommitWith : arg0 == wb.txn && called(Do#1) && ret(Do#1) == nil
+//@   assert[fresh-update-txn] before call newTransaction : arg0 == wb.db && arg1 && arg2 == wb.isManaged && called(CommitWith#1)
+//@   assert[commit-ts-carried] before call Error#2 : wb.txn == ret(newTransaction#1) && wb.txn.commitTs == wb.commitTs
+
+// Flush commits what is pending, then waits for every commit callback, and reports the batch's
+// error.
+//@ func (*WriteBatch).Flush
+//@   props C27
+//@   light
+//@   assert[pending-committed] before call Discard : called(commit#1) && ret(commit#1) == nil && wb.finished
+//@   assert[waits-for-callbacks] before return : result == nil ==> called(Finish#1) && ret(Finish#1) == nil
+
+// SetEntryAt / DeleteAt: the caller's version is the entry's version.
+//@ func (*WriteBatch).SetEntryAt
+//@   props C27 C36
+//@   light
+//@   assert[version-stamped] before call SetEntry : arg1 == e && e.version == ts
+
 // ---- managed mode (C36) ----
 
 //@ func (*DB).NewTransactionAt
